@@ -370,6 +370,79 @@ pub fn gen_c14(seed: u64, thorough: bool, only: Option<u64>, out: &mut Out) {
   }
 }
 
+fn fnv(bytes: &[u8]) -> u64 {
+  let mut h: u64 = 0xcbf29ce484222325;
+  for b in bytes {
+    h = (h ^ *b as u64).wrapping_mul(0x100000001b3);
+  }
+  h
+}
+/// what loading an exported key state into a fresh server gives: re-export digest, or err
+fn ks_obs(bytes: &[u8]) -> String {
+  let b = bytes.to_vec();
+  guarded(move || match bincode::deserialize::<ServerKeyState>(&b) {
+    Ok(st) => {
+      let mut fresh = Server::new(vec![9, 200]).expect("server");
+      fresh.set_private_key(st);
+      format!("ok {:016x}", fnv(&export(&fresh)))
+    }
+    Err(_) => "err".to_string(),
+  })
+  .unwrap_or_else(|| "panic".to_string())
+}
+/// The exported key state as a byte string: loading an honest export gives a server that exports the same
+/// bytes; every strict prefix and a few targeted damages are refused.
+pub fn gen_keystate(seed: u64, thorough: bool, out: &mut Out) {
+  let n = if thorough { 24 } else { 6 };
+  for gi in 0..n {
+    let mut r = Prng::for_case(seed, "KS", gi);
+    let tagsets: [&[u8]; 4] = [&[0, 1], &[0, 255], &[0, 1, 2, 3, 4, 128, 254, 255], &[7]];
+    let mds = tagsets[(gi % 4) as usize].to_vec();
+    let mut s = Server::new(mds.clone()).expect("server");
+    let np = r.below(4) as usize + (gi as usize % 2);
+    for _ in 0..np {
+      let md = if r.below(2) == 0 { *r.pick(&mds) } else { r.below(256) as u8 };
+      let _ = s.puncture(md);
+    }
+    let b = export(&s);
+    let honest = ks_obs(&b);
+    let v = if honest == format!("ok {:016x}", fnv(&b)) { Ok(()) } else { Err(format!("a server restored from an export ({} punctures) exports a different state", np)) };
+    out.case(format!("ks.load {}", hex(&b)), honest, v);
+    let cuts: Vec<usize> = if thorough { (0..b.len()).collect() } else {
+      let mut c: Vec<usize> = vec![0, 1, 31, 32, 33, 63, 64, 71, 72, 73, b.len() - 1, b.len() - 8, b.len() - 9];
+      for _ in 0..24 { c.push(r.below(b.len() as u64) as usize); }
+      c.sort(); c.dedup(); c
+    };
+    for k in cuts {
+      let o = ks_obs(&b[..k]);
+      let v = if o == "err" { Ok(()) } else { Err(format!("a key state cut to {} of {} bytes was loaded", k, b.len())) };
+      out.case(format!("ks.load {}", hex(&b[..k])), o, v);
+    }
+    // targeted damage
+    let order = b.windows(19).position(|w| w == b"bitvec::order::Lsb0");
+    let mut dmg: Vec<(String, Vec<u8>)> = vec![];
+    if let Some(p) = order {
+      let mut x = b.clone(); x[p + 18] = b'1'; dmg.push(("bit order name".into(), x));
+      let mut x = b.clone(); x[p + 19] = 32; dmg.push(("element width".into(), x));
+      let mut x = b.clone(); x[p + 21] = 65; dmg.push(("bit count above the stored words".into(), x));
+    }
+    {
+      // the group order itself: the smallest non-canonical scalar
+      let ell: [u8; 32] = [0xed, 0xd3, 0xf5, 0x5c, 0x1a, 0x63, 0x12, 0x58, 0xd6, 0x9c, 0xf7, 0xa2, 0xde, 0xf9, 0xde, 0x14, 0, 0, 0, 0, 0, 0, 0, 0, 0, 0, 0, 0, 0, 0, 0, 0x10];
+      let mut x = b.clone(); x[..32].copy_from_slice(&ell); dmg.push(("non-canonical key scalar".into(), x));
+    }
+    for (what, x) in dmg {
+      let o = ks_obs(&x);
+      let v = if o == "err" { Ok(()) } else { Err(format!("a key state with a damaged {} was loaded", what)) };
+      out.case(format!("ks.load {}", hex(&x)), o, v);
+    }
+    // trailing bytes are ignored by the loader
+    let mut x = b.clone(); x.extend_from_slice(&[1, 2, 3]);
+    let o = ks_obs(&x);
+    out.case(format!("ks.load {}", hex(&x)), o, Ok(()));
+  }
+}
+
 /// C12: outputs depend on (server key, tag, input) only; blinding is fresh and removable
 pub fn gen_c12(seed: u64, thorough: bool, only: Option<u64>, out: &mut Out) {
   let n: u64 = if thorough { 120 } else { 12 };
